@@ -742,11 +742,11 @@ def cached_loop_history(ctx, i):
     rng = ctx.rng
     N = rng.randint(2, 4)
     cands = [t for t in loops.systematic_templates(N) if not any(ns["k"] == "sub" for ns in t["spec"]["nodes"]) and not t["ref"].get("mechanism")]
-    cands.append(_observer_loop(N))
-    t = rng.choice(cands)
+    all_cached = rng.random() < 0.4
+    t = _observer_loop(N + 1, rng.randint(1, N), rng.random() < 0.5) if all_cached else rng.choice(cands)
     spec = copy.deepcopy(t["spec"])
     for ns in spec["nodes"]:
-        if rng.random() < 0.7 and not ns.get("gen"):
+        if (all_cached or rng.random() < 0.7) and not ns.get("gen"):
             ns["cache"] = True
     case = {"program": "cached loop: " + t["template"], "spec": spec, "inputs": t["inputs"]}
     for runner in ("sync", "async"):
@@ -765,18 +765,17 @@ def cached_loop_history(ctx, i):
     ctx.case({"cached-loop": t["template"], "N": N}, True)
 
 
-def _observer_loop(n_limit):
-    """inc(count)->count under a gate, observe(count)->seen (saturating flag), report(seen, count)->rep: `report`
-    becomes ready together with `inc` because `seen` arrived one step earlier than the next `count`."""
-    nodes = [
-        {"k": "fn", "name": "inc", "params": [{"n": "count"}], "outs": ["count"], "beh": ["inc", "count"]},
-        {"k": "route", "name": "loop_gate", "params": [{"n": "count"}], "targets": ["inc", "END"], "cond": ["lt", "count", n_limit], "then": "inc", "else": "END", "open": False},
-        {"k": "fn", "name": "observe", "params": [{"n": "count"}], "outs": ["seen"], "beh": ["const", True]},
-        {"k": "fn", "name": "report", "params": [{"n": "seen"}, {"n": "count"}], "outs": ["rep"], "beh": ["tuple", "seen", "count"]},
-    ]
+def _observer_loop(n_limit, threshold, report_first):
+    """inc(count)->count under a gate, observe(count)->seen (a flag that flips ONCE, at count >= threshold),
+    report(seen, count)->rep: when `seen` flips, `report` becomes ready in the same step as `inc` (listed before it) and
+    reads the counter of the step's snapshot while `inc` writes the next one."""
+    inc = {"k": "fn", "name": "inc", "params": [{"n": "count"}], "outs": ["count"], "beh": ["inc", "count"]}
+    gate = {"k": "route", "name": "loop_gate", "params": [{"n": "count"}], "targets": ["inc", "END"], "cond": ["lt", "count", n_limit], "then": "inc", "else": "END", "open": True}
+    observe = {"k": "fn", "name": "observe", "params": [{"n": "count"}], "outs": ["seen"], "beh": ["gec", "count", threshold]}
+    report = {"k": "fn", "name": "report", "params": [{"n": "seen"}, {"n": "count"}], "outs": ["rep"], "beh": ["tuple", "seen", "count"]}
+    nodes = [inc, gate, report, observe] if report_first else [inc, gate, observe, report]
     final = max(n_limit, 0)
-    return {"spec": {"name": "obsloop", "nodes": nodes, "bind": {}}, "inputs": {"count": 0}, "ref": {"values": {"count": final, "seen": True, "rep": (True, final)}}, "template": "observer-loop"}
-
+    return {"spec": {"name": "obsloop", "nodes": nodes, "bind": {}}, "inputs": {"count": 0}, "ref": {"values": {"count": final, "seen": final >= threshold, "rep": (final >= threshold, final)}}, "template": f"observer-loop(threshold={threshold})"}
 
 def lru_recency(ctx, i):
     """Size-limited in-memory backend, directed history: with room for m entries, an entry that was just READ is the
